@@ -28,6 +28,7 @@ type Solver struct {
 	ErrLine string
 	timeout int // ms per query
 	nAssert int
+	dead    bool
 }
 
 func solverArgv(kind string, timeoutMs int) []string {
@@ -274,7 +275,29 @@ func (s *Solver) Check(extra []*Term, want []*Term) CheckResult {
 	}
 	t0 := time.Now()
 	s.send("(check-sat)")
-	resp, err := s.readResponse()
+	type rr struct {
+		resp string
+		err  error
+	}
+	ch := make(chan rr, 1)
+	go func() {
+		r, e := s.readResponse()
+		ch <- rr{r, e}
+	}()
+	var resp string
+	var err error
+	select {
+	case r := <-ch:
+		resp, err = r.resp, r.err
+	case <-time.After(time.Duration(s.timeout)*time.Millisecond*3/2 + 3*time.Second):
+		// the solver ignored its own time limit: kill it; the portfolio restarts it on demand
+		s.cmd.Process.Kill()
+		s.dead = true
+		s.Queries++
+		secs := time.Since(t0).Seconds()
+		s.Seconds += secs
+		return CheckResult{Status: "unknown", Secs: secs, Raw: "killed by watchdog"}
+	}
 	secs := time.Since(t0).Seconds()
 	s.Queries++
 	s.Seconds += secs
@@ -550,6 +573,9 @@ func (p *Portfolio) Check(extra []*Term, want []*Term) CheckResult {
 		p.Seconds += r.Secs
 		total += r.Secs
 		last = r
+		if s.dead {
+			p.solvers[i] = nil
+		}
 		if r.Status == "error" {
 			p.ErrLine = s.ErrLine
 			// restart this solver next time
